@@ -8,6 +8,7 @@ import (
 	"go/token"
 	"go/types"
 	"path/filepath"
+	"sort"
 	"strings"
 
 	"golang.org/x/tools/go/packages"
@@ -90,6 +91,30 @@ func (s *State) assume(t Term) {
 }
 
 type abortErr struct{ msg string }
+
+// sortedObjs returns map keys in a deterministic order (source position, then name).
+func sortedObjs[V any](m map[types.Object]V) []types.Object {
+	out := make([]types.Object, 0, len(m))
+	for o := range m {
+		out = append(out, o)
+	}
+	sort.Slice(out, func(i, j int) bool {
+		if out[i].Pos() != out[j].Pos() {
+			return out[i].Pos() < out[j].Pos()
+		}
+		return out[i].Name() < out[j].Name()
+	})
+	return out
+}
+
+func sortedKeys[V any](m map[string]V) []string {
+	out := make([]string, 0, len(m))
+	for k := range m {
+		out = append(out, k)
+	}
+	sort.Strings(out)
+	return out
+}
 
 type FV struct {
 	p    *Program
@@ -292,7 +317,7 @@ func (fv *FV) specEnv(st *State, atPos token.Pos, results []Term, post bool) *Sp
 			}
 		}
 		// any variable with that name currently live (loop-local names used by invariants)
-		for obj := range st.vars {
+		for _, obj := range sortedObjs(st.vars) {
 			if obj.Name() == name {
 				return fv.readVar(st, obj), true
 			}
